@@ -222,6 +222,28 @@ Plan genCodec(const std::string& prop, int tier, uint64_t batchSeed, uint64_t id
         }
         if (!c01 && r.chance(3, 10))
             g.pickCtx(minB, maxB);  // contexts change between calls
+        else if (!c01 && o > 0 && r.chance(1, 4))
+        {
+            // ... or by exactly one small step: caches keyed on too few bits of the context
+            switch (r.below(5))
+            {
+                case 0:
+                    minB = std::min<int64_t>(maxB, minB + r.range(1, 2));
+                    break;
+                case 1:
+                    minB = std::max<int64_t>(0, minB - r.range(1, 2));
+                    break;
+                case 2:
+                    minB = r.chance(1, 2) ? maxB : std::max<int64_t>(0, maxB - 1);
+                    break;
+                case 3:
+                    maxB = std::max<int64_t>(std::max<int64_t>(25, minB), maxB - 1);
+                    break;
+                default:
+                    maxB = maxB + 1;
+                    break;
+            }
+        }
         if (wrapRun)
         {
             maxB = r.range(25, 40);
@@ -244,11 +266,21 @@ Plan genCodec(const std::string& prop, int tier, uint64_t batchSeed, uint64_t id
             minB = r.chance(1, 2) ? 0 : r.range(0, maxB);
         }
         const bool swarmOfTiny = !wrapRun && !manyFrames && !c09 && r.chance(1, 40);  // > 127 / > 255 messages in one frame
+        int64_t swarmLen = 0;
         if (swarmOfTiny)
         {
             nMsg = 120 + r.below(200);
             maxB = r.pick<int64_t>({9000, 65559});
             minB = r.chance(1, 2) ? 0 : r.range(0, maxB);
+            if (r.chance(1, 2))
+            {
+                // a message COUNT on an 8/9-bit boundary, then a packet that does not fit the little room left
+                const int64_t cnt = r.pick<int64_t>({255, 256, 256, 257, 511, 512, 513, 1024});
+                swarmLen = r.range(1, 3);
+                maxB = 8 + cnt * (16 + swarmLen) + r.range(1, 40);
+                minB = r.chance(1, 2) ? 0 : r.range(0, maxB);
+                nMsg = static_cast<size_t>(cnt) + 1 + r.below(3);
+            }
         }
         if (c10 && o + 1 == nOps && nMsg == 0)
             nMsg = 1;
@@ -275,7 +307,7 @@ Plan genCodec(const std::string& prop, int tier, uint64_t batchSeed, uint64_t id
             {
                 g.fillMsg(m, kinds, maxB, freeBytes, maxFramesPerMsg);
                 if (swarmOfTiny)
-                    m.set("kind", 0).set("len", r.range(1, 4)).set("mtype", 1).set("ptype", 0x20);
+                    m.set("kind", 0).set("len", swarmLen ? (i + 3 >= nMsg ? r.range(20, 70) : swarmLen) : r.range(1, 4)).set("mtype", 1).set("ptype", 0x20);
                 if (manyFrames && i == 0)
                 {
                     // one frame per message: 250..600 of them
